@@ -11,17 +11,31 @@ mkdir -p "$work/corpus" "$work/artifacts"
 cp "$HERE/corpus/$target"/* "$work/corpus/" 2>/dev/null
 seed=$(( ${VERIF_SEED:-0} + 1 ))
 bin="$HERE/target/x86_64-unknown-linux-gnu/release/$target"
-"$bin" "$work/corpus" -runs="$runs" -seed="$seed" -max_len=1024 -len_control=0 -timeout=120 -rss_limit_mb=4096 -artifact_prefix="$work/artifacts/" >"$work/log" 2>&1
-rc=$?
-stats=$(grep -E "DONE|Done" "$work/log" | tr '\n' ' ')
-ncorp=$(ls "$work/corpus" | wc -l)
+# J independent libFuzzer processes (own corpus copy, own seed), runs/J executions each
+J=${VERIF_FUZZ_JOBS:-12}
+per=$(( (runs + J - 1) / J ))
+rc=0
+for k in $(seq 0 $((J-1))); do
+  mkdir -p "$work/corpus$k" "$work/artifacts$k"
+  cp "$work/corpus"/* "$work/corpus$k/" 2>/dev/null
+  ( "$bin" "$work/corpus$k" -runs="$per" -seed="$(( seed * 1000 + k ))" -max_len=1024 -len_control=0 -timeout=120 -rss_limit_mb=4096 -artifact_prefix="$work/artifacts$k/" >"$work/log$k" 2>&1; echo $? > "$work/rc$k" ) &
+done
+wait
+ncorp=0
+for k in $(seq 0 $((J-1))); do
+  r=$(cat "$work/rc$k" 2>/dev/null || echo 99); [ "$r" -ne 0 ] && rc=$r
+  ncorp=$(( ncorp + $(ls "$work/corpus$k" | wc -l) ))
+done
+cat "$work"/log* > "$work/log"
+stats=$(grep -E "DONE|Done" "$work/log0" | tr '\n' ' ')
+stats="$J processes x $per runs; first: $stats"
 viol=$(grep -m1 "FUZZ-VIOLATION" "$work/log")
 python3 - "$VERIF_DIR/evidence/$id.json" "$target" "$runs" "$seed" "$ncorp" "$rc" "$stats" <<'PY'
 import json,sys
 p,target,runs,seed,ncorp,rc,stats=sys.argv[1:]
 try: ev=json.load(open(p))
 except Exception: sys.exit(0)
-ev["coverage"]["fuzz_campaign"]={"engine":"libFuzzer (cargo-fuzz), bytes decoded by harness/src/bytes.rs into the property's case type, same oracle","target":target,"runs_requested":int(runs),"libfuzzer_seed":int(seed),"corpus_files_after":int(ncorp),"exit_code":int(rc),"summary":stats}
+ev["coverage"]["fuzz_campaign"]={"engine":"libFuzzer (cargo-fuzz), several independent processes, bytes decoded by harness/src/bytes.rs into the property's case type, same oracle","target":target,"runs_requested":int(runs),"libfuzzer_seed":int(seed),"corpus_files_after":int(ncorp),"exit_code":int(rc),"summary":stats}
 json.dump(ev,open(p,"w"),indent=1)
 PY
 if [ -n "$viol" ]; then
@@ -32,7 +46,7 @@ if [ -n "$viol" ]; then
 fi
 if [ $rc -ne 0 ]; then
   # a crash/timeout/oom that is not an oracle verdict: keep the input, report as inconclusive
-  mkdir -p "$VERIF_DIR/replays"; cp "$work/artifacts"/* "$VERIF_DIR/replays/" 2>/dev/null
+  mkdir -p "$VERIF_DIR/replays"; cp "$work"/artifacts*/* "$VERIF_DIR/replays/" 2>/dev/null
   echo "INCONCLUSIVE property=$id fuzz target $target stopped with exit code $rc ($(grep -m1 -E 'ERROR|SUMMARY' "$work/log"))"
   exit 2
 fi
